@@ -303,7 +303,12 @@ def worker(payload):
                 if any(v == -2 for v in entry[1]) or any(v == -2 for _, v in entry[2]):
                     orc("C03")["viol"].append({"law": "a parameter received a foreign default / placeholder", "method": mid, **wit})
             # ---------------- C04 / C05: same as on a fresh function
-            if change_after_call:
+            if len(set(regs)) != len(regs):
+                # one function object registered twice at once (a re-registration whose predecessor is pushed down):
+                # two table entries share one code object, the key of every call_next continuation — outside the
+                # hypothesis DistinctHandlers of the theorems (and of no use to a user); counted, not judged
+                out["hist"]["calls while one function object is registered twice (C04 / C05 not judged)"] = out["hist"].get("calls while one function object is registered twice (C04 / C05 not judged)", 0) + 1
+            elif change_after_call:
                 o5 = orc("C05")
                 fr = fresh_call(w, sc, j)
                 o5["n"] += 1
